@@ -3,7 +3,16 @@
 (*                                                                                *)
 (* One action per critical section of the code:                                   *)
 (*   New          NewTimer: timers.Set under the shard lock; an instance already  *)
-(*                registered under the id is overwritten and NOT cancelled        *)
+(*                registered under the id is overwritten and NOT cancelled. The    *)
+(*                code writes the first deadline (now + interval) inside Set's     *)
+(*                callback, i.e. atomically with the timer becoming visible to     *)
+(*                the loop (RegOrder "locked"). The two other orders NewTimer      *)
+(*                could have - deadline written before the timer is stored,        *)
+(*                or the timer stored with the zero deadline NewSimpleTimer        *)
+(*                gives it and the deadline written afterwards - are the steps     *)
+(*                NewPrepare/NewPublish and NewVisible/NewDeadline: TLC shows      *)
+(*                that the first keeps NotEarly and the second does not (a         *)
+(*                tick between the two steps collects the fresh timer).            *)
 (*   StopTimers / StopOthers    removeTimer(id) per id: whenRemoved (= cancel the *)
 (*                instance's context) and delete, under the shard lock            *)
 (*   Tick         iterate(): Traverse collects the registered, expired instances  *)
@@ -37,6 +46,7 @@ CONSTANTS Ids,        \* timer ids (strings)
           MaxTicks, MaxStops, MaxClock, MaxRm,   \* bounds of the exploration
           Interval,   \* interval of every timer, in clock units
           RemoveBy,   \* "id" | "instance"
+          RegOrder,   \* the steps of NewTimer: "locked" | "deadline-first" | "visible-first" (see New)
           Results,    \* subset of {"keep","stop","err","nonext"}: what a callback may answer
           KeepHist    \* "off": no output; "last": step = the last action (simulation, trace);
                       \* "all": step = the whole behaviour (schedule enumeration, no VIEW)
@@ -58,7 +68,7 @@ VARIABLES
   exp,        \* Inst -> expiry time (Inf while a job holds it)
   base,       \* Inst -> time of registration / of the previous callback start
   now,        \* clock
-  bnd,        \* [ticks, stops] exploration counters
+  bnd,        \* [ticks, stops] exploration counters, regq = NewTimer calls between their two steps
   badStart,   \* sentence 1: instances whose callback started after they were stopped
   sbc,        \*             ... instances that passed the context check although stopped before it
   badRemove,  \* sentence 2: <<remover, victim>> with victim # remover
@@ -79,7 +89,7 @@ Init == /\ reg = [i \in Ids |-> None] /\ owner = [x \in Inst |-> NoId]
         /\ pc = [x \in Inst |-> "idle"] /\ rm = [x \in Inst |-> 0]
         /\ cancelled = {} /\ stopped = {}
         /\ exp = [x \in Inst |-> Inf] /\ base = [x \in Inst |-> 0]
-        /\ now = 0 /\ bnd = [ticks |-> 0, stops |-> 0]
+        /\ now = 0 /\ bnd = [ticks |-> 0, stops |-> 0, regq |-> {}]
         /\ badStart = {} /\ sbc = {} /\ badRemove = {} /\ badEarly = {}
         /\ hist = <<>> /\ step = ""
 
@@ -92,14 +102,30 @@ RemoveEffect(V) == /\ reg' = [i \in Ids |-> IF reg[i] \in V THEN None ELSE reg[i
                    /\ cancelled' = cancelled \cup V
 
 (* ---- API ---- *)
-New(id, x, t, iv) ==
+ZeroTime == -1                                     \* time.Time{}: the deadline of a fresh SimpleTimer
+NewWith(id, x, t, iv, deadline) ==
   /\ x \in Inst /\ owner[x] = NoId
   /\ reg' = [reg EXCEPT ![id] = x]                 \* overwrites; the old instance keeps its context
   /\ owner' = [owner EXCEPT ![x] = id]
   /\ ivl' = [ivl EXCEPT ![x] = iv]
-  /\ exp' = [exp EXCEPT ![x] = t + iv]
+  /\ exp' = [exp EXCEPT ![x] = deadline]
   /\ base' = [base EXCEPT ![x] = t]
   /\ UNCHANGED <<pc, rm, cancelled, stopped, badStart, sbc, badRemove, badEarly>>
+New(id, x, t, iv) == NewWith(id, x, t, iv, t + iv)          \* "locked": visible and armed in one step
+(* "visible-first": stored with the zero deadline, the deadline is written afterwards *)
+NewVisible(id, x, t, iv) == NewWith(id, x, t, iv, ZeroTime)
+NewDeadline(x, t) ==
+  /\ exp' = [exp EXCEPT ![x] = t + ivl[x]]
+  /\ UNCHANGED <<reg, owner, ivl, pc, rm, cancelled, stopped, base, badStart, sbc, badRemove, badEarly>>
+(* "deadline-first": the deadline is written, then the timer is stored *)
+NewPrepare(id, x, t, iv) ==
+  /\ x \in Inst /\ owner[x] = NoId
+  /\ owner' = [owner EXCEPT ![x] = id] /\ ivl' = [ivl EXCEPT ![x] = iv]
+  /\ exp' = [exp EXCEPT ![x] = t + iv] /\ base' = [base EXCEPT ![x] = t]
+  /\ UNCHANGED <<reg, pc, rm, cancelled, stopped, badStart, sbc, badRemove, badEarly>>
+NewPublish(x) ==
+  /\ reg' = [reg EXCEPT ![owner[x]] = x]
+  /\ UNCHANGED <<owner, ivl, pc, rm, cancelled, stopped, exp, base, badStart, sbc, badRemove, badEarly>>
 
 StopSet(S) == {reg[i] : i \in S \cap Registered}
 StopEffect(S) == /\ RemoveEffect(StopSet(S))
@@ -158,8 +184,15 @@ AfterRun(x) == AfterRunV(x, Victim(x))
 (* ---- bounded exploration ---- *)
 NoTime == UNCHANGED now
 Next ==
-  \/ \E id \in Ids : /\ Fresh # None /\ New(id, Fresh, now, Interval) /\ NoTime /\ UNCHANGED bnd
+  \/ \E id \in Ids : /\ Fresh # None /\ RegOrder = "locked" /\ New(id, Fresh, now, Interval) /\ NoTime /\ UNCHANGED bnd
                      /\ Out([a |-> "New", id |-> id, x |-> Fresh])
+  \/ \E id \in Ids : /\ Fresh # None /\ RegOrder = "visible-first" /\ NewVisible(id, Fresh, now, Interval) /\ NoTime
+                     /\ bnd' = [bnd EXCEPT !.regq = @ \cup {Fresh}] /\ Out([a |-> "NewVisible", id |-> id, x |-> Fresh])
+  \/ \E id \in Ids : /\ Fresh # None /\ RegOrder = "deadline-first" /\ NewPrepare(id, Fresh, now, Interval) /\ NoTime
+                     /\ bnd' = [bnd EXCEPT !.regq = @ \cup {Fresh}] /\ Out([a |-> "NewPrepare", id |-> id, x |-> Fresh])
+  \/ \E x \in bnd.regq : /\ IF RegOrder = "visible-first" THEN NewDeadline(x, now) ELSE NewPublish(x)
+                         /\ NoTime /\ bnd' = [bnd EXCEPT !.regq = @ \ {x}]
+                         /\ Out([a |-> IF RegOrder = "visible-first" THEN "NewDeadline" ELSE "NewPublish", x |-> x])
   \/ \E S \in (SUBSET Ids) \ {{}} :
         /\ bnd.stops < MaxStops /\ StopEffect(S) /\ NoTime /\ bnd' = [bnd EXCEPT !.stops = @ + 1]
         /\ Out([a |-> "StopTimers", ids |-> S, removed |-> StopSet(S)])
